@@ -116,6 +116,26 @@ static sqfs_inode_generic_t *nth_file(sqfs_dir_reader_t *dr, int n)
 	return ino;
 }
 
+/* depth-limited walk over the directories of the image through the reader under test: every directory inode is fetched with
+ * get_inode (a reader with dot entries remembers inode number -> reference for each of them) */
+static void walk_dirs(sqfs_dir_reader_t *dr, sqfs_u64 ref, int depth, int *budget)
+{
+	sqfs_inode_generic_t *ino = NULL;
+	sqfs_dir_reader_state_t st;
+	if (*budget <= 0 || sqfs_dir_reader_get_inode(dr, ref, &ino)) return;
+	(*budget)--;
+	if ((ino->base.type == SQFS_INODE_DIR || ino->base.type == SQFS_INODE_EXT_DIR) && depth > 0 &&
+	    sqfs_dir_reader_open_dir(dr, ino, &st, SQFS_DIR_OPEN_NO_DOT_ENTRIES) == 0) {
+		for (int k = 0; k < 4000; ++k) {
+			sqfs_dir_node_t *e = NULL;
+			if (sqfs_dir_reader_read(dr, &st, &e) != 0) break;
+			if (e->type == SQFS_INODE_DIR) walk_dirs(dr, st.ent_ref, depth - 1, budget);
+			sqfs_free(e);
+		}
+	}
+	sqfs_free(ino);
+}
+
 static void k_mut(void *o, int a, int pos)
 {
 	if (!strncmp(kind, "comp", 4)) {
@@ -129,7 +149,9 @@ static void k_mut(void *o, int a, int pos)
 	} else if (!strcmp(kind, "metareader")) {
 		char b[8]; if (sqfs_meta_reader_seek(o, super.inode_table_start, a * 10 + pos) == 0) sqfs_meta_reader_read(o, b, 8);
 	} else if (!strncmp(kind, "dirreader", 9)) {
+		int budget = 40 * a + 10 * pos;
 		sqfs_inode_generic_t *f = nth_file(o, a - 1); sqfs_free(f);
+		walk_dirs(o, super.root_inode_ref, a + 1, &budget);
 	} else if (!strcmp(kind, "datareader")) {
 		sqfs_dir_reader_t *dr = sqfs_dir_reader_create(&super, cmp, file, 0);
 		sqfs_inode_generic_t *f = nth_file(dr, a - 1);
@@ -176,9 +198,14 @@ static unsigned long k_query(void *o)
 		sqfs_inode_generic_t *root = NULL; sqfs_dir_reader_state_t st;
 		int r = sqfs_dir_reader_get_root_inode(o, &root);
 		if (r == 0) r = sqfs_dir_reader_open_dir(o, root, &st, 0);
-		for (int k = 0; r == 0 && k < 1000; ++k) { sqfs_dir_node_t *e = NULL; r = sqfs_dir_reader_read(o, &st, &e); if (r == 0) { c = crc32(c, (void *)e, sizeof(*e) + e->size + 1); sqfs_free(e); } }
+		for (int k = 0; r == 0 && k < 1000; ++k) { sqfs_dir_node_t *e = NULL; r = sqfs_dir_reader_read(o, &st, &e); if (r == 0) { c = crc32(c, (void *)e, sizeof(*e) + e->size + 1); c = crc32(c, (void *)&st.ent_ref, sizeof st.ent_ref); sqfs_free(e); } }
 		c = crc32(c, (void *)&r, sizeof r);
 		sqfs_free(root);
+		/* what the reader remembers about directories seen so far (does not change it): inode number -> reference */
+		for (sqfs_u32 inum = 1; inum <= super.inode_count && inum <= 6000; ++inum) {
+			sqfs_u64 ref = 0; int rr = sqfs_dir_reader_resolve_inum(o, inum, &ref);
+			c = crc32(c, (void *)&rr, sizeof rr); c = crc32(c, (void *)&ref, sizeof ref);
+		}
 	} else if (!strcmp(kind, "datareader")) {
 		sqfs_dir_reader_t *dr = sqfs_dir_reader_create(&super, cmp, file, 0);
 		for (int n = 0; n < 3; ++n) {
